@@ -12,6 +12,7 @@
 # See the License for the specific language governing permissions and
 # limitations under the License.
 
+import __future__
 import ast
 import copy
 import inspect
@@ -403,7 +404,18 @@ class QlassF(QCircuitWrapper):
             # that namespace only (not among the locals of this method)
             ns = dict(globals())
             ns.update(def_originals or {})
-            exec(f, ns)
+            # the annotations are not evaluated (they are translated from the tree): a
+            # definition called like a type they mention (Qint) must not break them
+            exec(
+                compile(
+                    f,
+                    "<string>",
+                    "exec",
+                    flags=__future__.annotations.compiler_flag,
+                    dont_inherit=True,
+                ),
+                ns,
+            )
             original_f = ns[fun_ast.body[0].name]
         else:
             original_f = f
